@@ -179,6 +179,10 @@ def c05(F: Facts):
                 continue
             end = e if e is not None else len(F.tr)
             done_at = oc.get(tag, oc.get(str(tag)))
+            if e is not None and F.tr[e]['k'] == 'aw-end' and not F.tr[e].get('complete'):
+                # the await came back although the child was not complete (C04's subject): the statement's window still runs
+                # until the child's completion
+                end = len(F.tr)
             if done_at is not None:
                 end = min(end, done_at['at'])
             suspended = set(F.open_awaits_at(b + 1))  # handlers already suspended in an await: only their cancellation can show up
@@ -201,11 +205,17 @@ def c05(F: Facts):
 
 def c06(F: Facts):
     v = []
+    stop_begins = {}
+    for r in F.tr:
+        if r['k'] == 'a-stop-begin':
+            stop_begins.setdefault(r['bus'], r['i'])
     for (bus, ev, hi), ents in F.enters.items():
         for s in ents:
             for me in F.running_at(s):
                 if me == (bus, ev, hi):
                     continue
+                if stop_begins.get(me[0], s) < s:
+                    continue  # a handler of a bus that stop() is tearing down / has torn down: what it still does is not "processing"
                 if F.awaiting_at(me, s) is not None:
                     continue  # (i) suspended in an await
                 if F.par.get(me[0]):
@@ -222,6 +232,7 @@ def c06(F: Facts):
 
 def c07(F: Facts):
     v = []
+    touched = c10_facts(F)['touched'] if F.sc.get('timeouts') else set()
     for ev in sorted(F.accepted):
         typ = F.etype.get(ev)
         if typ is None:
@@ -229,6 +240,8 @@ def c07(F: Facts):
         entry = F.direct_buses(ev)
         if not entry:
             continue
+        if ev in touched:
+            continue  # processing cut short because the handler awaiting it timed out: its pending forwards are cancelled by design (C10)
         reach = {F.bname[i] for i in F.reachable(entry, typ)}
         got_enq = [b for (b, e), idxs in F.enq.items() if e == ev]
         got_run = {b for (b, e) in F.first_enter if e == ev}
